@@ -566,6 +566,23 @@ fn generate(args: &Args, psl: &RefPsl, rng: &mut Rng) -> Vec<Pair> {
             out.push(Pair { android: true, origin: r.unicode.clone(), rp: None, localhost: false, custom: false, tag: "psl-unicode-suffix-as-host" });
         }
     }
+    // wildcard instances whose label is not made up: the labels that deeper rules of the list put in the
+    // wildcard position (`ex` in `*.ex.futurecms.at` under `*.futurecms.at`) - such a label has table nodes
+    // of its own, and the name is a public suffix through the wildcard alone (or registrable through an exception)
+    for w in psl.rules.iter().filter(|r| r.kind == RuleKind::Wildcard) {
+        let tail = format!(".{}", w.ascii);
+        let mut labels: Vec<String> = psl.rules.iter().filter(|r| r.ascii.len() > tail.len() && r.ascii.ends_with(&tail)).filter_map(|r| r.ascii[..r.ascii.len() - tail.len()].rsplit('.').next().map(|l| l.to_string())).collect();
+        labels.sort();
+        labels.dedup();
+        for l in labels {
+            let suffix = format!("{l}.{}", w.ascii);
+            let host = format!("a.{suffix}");
+            out.push(Pair { android: false, origin: format!("https://{host}"), rp: Some(suffix.clone()), localhost: false, custom: false, tag: "psl-wildcard-instance-with-nodes-of-its-own" });
+            out.push(Pair { android: false, origin: format!("https://{suffix}"), rp: None, localhost: false, custom: false, tag: "psl-wildcard-instance-with-nodes-of-its-own" });
+            out.push(Pair { android: true, origin: host.clone(), rp: Some(suffix.clone()), localhost: false, custom: false, tag: "psl-wildcard-instance-with-nodes-of-its-own" });
+            out.push(Pair { android: false, origin: format!("https://b.{host}"), rp: Some(host.clone()), localhost: false, custom: false, tag: "psl-wildcard-instance-with-nodes-of-its-own" });
+        }
+    }
     out
 }
 
@@ -574,7 +591,7 @@ pub fn run(args: &Args) -> Report {
         "C01",
         &args.tier,
         args.seed,
-        "generated (origin, RP ID, localhost flag, provider, web/android) tuples: hand-built hosts x every relation of the RP ID to the host (absent, equal, every label-aligned suffix, every character-level non-aligned suffix, dotted, empty, unrelated, case) x schemes/ports, plus every selected public suffix of the shipped list in punycode and Unicode form; distinct by the full tuple; non-trivial when the reference verdict depends on more than syntax (RP ID is a proper suffix / case variant, PSL-derived, IDN, localhost or custom provider)",
+        "generated (origin, RP ID, localhost flag, provider, web/android) tuples: hand-built hosts x every relation of the RP ID to the host (absent, equal, every label-aligned suffix, every character-level non-aligned suffix, dotted, empty, unrelated, case) x schemes/ports, plus every selected public suffix of the shipped list in punycode and Unicode form and every wildcard instance whose label carries deeper rules of its own; distinct by the full tuple; non-trivial when the reference verdict depends on more than syntax (RP ID is a proper suffix / case variant, PSL-derived, IDN, localhost or custom provider)",
     );
     rep.assumptions.push("url crate decides what is a DNS host; idna crate gives the ASCII form; reference PSL algorithm over the shipped .dat decides 'registrable'".into());
     rep.assumptions.push("monitor is one-directional: acceptance implies the reference accepts (completeness is not part of the statement)".into());
@@ -628,6 +645,18 @@ pub fn run(args: &Args) -> Report {
             if r.ascii != r.unicode {
                 if replay_index.map_or(true, |i| i == k) {
                     check_valid_rp_id(&mut rep, &reference, &log, &r.unicode, false, "psl-suffix-unicode-form", k);
+                }
+                k += 1;
+            }
+        }
+        for w in psl.rules.iter().filter(|r| r.kind == RuleKind::Wildcard) {
+            let tail = format!(".{}", w.ascii);
+            let mut labels: Vec<String> = psl.rules.iter().filter(|r| r.ascii.len() > tail.len() && r.ascii.ends_with(&tail)).filter_map(|r| r.ascii[..r.ascii.len() - tail.len()].rsplit('.').next().map(|l| l.to_string())).collect();
+            labels.sort();
+            labels.dedup();
+            for l in labels {
+                if replay_index.map_or(true, |i| i == k) {
+                    check_valid_rp_id(&mut rep, &reference, &log, &format!("{l}.{}", w.ascii), false, "psl-wildcard-instance-with-nodes-of-its-own", k);
                 }
                 k += 1;
             }
